@@ -165,7 +165,7 @@ fn ty(name: &str) -> Value {
 pub fn run(out: &mut Out, tier: &str, rng: &mut Rng) {
     let types = ["String", "i32", "f64", "u8", "VecString", "OptString", "OptI32", "VecI32", "OptVecString", "bool", "VecUser", "OptVecUser", "VecBool"];
     let safe_msgs = ["Must be valid", "too short!", "Zwischen 1 und 10", "say \"hi\"", "it's fine", "line\nbreak", "tab\there", "a, b and c", "100% [ok] {x}", "between {min} and {max}", "{message}: at least {min}", "{0} {} {{}} $1 %s {value}"];
-    let adv_msgs = ["é", "naïve café", "日本語のメッセージ", "a)b", "(paren)", "invalid email address", "minimum is 3", "at most max", "see url", "range error", "back\\slash", "dir\\new", "cr\rlf", "emoji 🎉 done", "x\\\\y", "\"", "ß", "message here", "length!", "too short :(", "(at most three tags", "use the 3.5\" form", "a \" b \" c \" d", "((", "[{(", "1) first (2", "ring\u{7}!", "a\u{8}c", "x\u{1f}y\u{1}", "del\u{7f}ete", "it's 'quoted'", "nbsp\u{a0}here", "line\u{2028}sep"];
+    let adv_msgs = ["é", "naïve café", "日本語のメッセージ", "a)b", "(paren)", "invalid email address", "minimum is 3", "at most max", "see url", "range error", "back\\slash", "dir\\new", "cr\rlf", "emoji 🎉 done", "x\\\\y", "\"", "ß", "message here", "length!", "too short :(", "(at most three tags", "use the 3.5\" form", "a \" b \" c \" d", "((", "[{(", "1) first (2", "ring\u{7}!", "a\u{8}c", "x\u{1f}y\u{1}", "del\u{7f}ete", "it's 'quoted'", "nbsp\u{a0}here", "line\u{2028}sep", "Allowed: letters , digits , dashes", "Too young (18+", "a ( b ) c", "x ,y", "( lead", "trail )", "sp  aces   kept"];
     let nums_u = ["0", "1", "3", "10", "255", "18446744073709551615", "18446744073709551616", "007"];
     let nums_f = ["0", "1", "10", "0.5", "1.5", "100.25", "1e3", "2.5e-3", "-5", "-0.5", "+3", "1_000", "1e20", "0.1", "3.14159", "9007199254740993", "5.", "1E3", "2.5E5", "2.5E-1", "1E+2", "1e+2"];
     // no validator at all / empty validate
@@ -230,6 +230,14 @@ pub fn run(out: &mut Out, tier: &str, rng: &mut Rng) {
             out.case("validator", json!({"rty": ty(t), "attrs": [[{"k": "email"}, {"k": kind, "min": "2", "message": msg(m, 0), "order": ["message", "min", "max"]}]]}), json!({"gen": "msgs"}));
             // … and the flag validators *after* the one with the message
             out.case("validator", json!({"rty": ty(t), "attrs": [[{"k": kind, "max": "30", "message": msg(m, 0)}, {"k": if i % 2 == 0 { "url" } else { "email" }}]]}), json!({"gen": "msgs"}));
+        }
+    }
+    // exact sizes: both bounds given and equal, with and without a message
+    for t in ["String", "VecString", "OptString", "i32", "f64"] {
+        for n in ["6", "0", "1"] {
+            let kind = if t == "i32" || t == "f64" { "range" } else { "length" };
+            out.case("validator", json!({"rty": ty(t), "attrs": [[{"k": kind, "min": n, "max": n, "message": msg("exactly that many", 0)}]]}), json!({"gen": "exact"}));
+            out.case("validator", json!({"rty": ty(t), "attrs": [[{"k": kind, "min": n, "max": n}]]}), json!({"gen": "exact"}));
         }
     }
     // every validator in a first attribute, every other one in a second (what the first declared must survive the second)
